@@ -385,3 +385,10 @@ func (arithEngine) Coq(inAny any, obsAny any) string {
 		obs.Target.Coq(), emit.Bool(obs.Wrote), optIOS(obs.KnobAfter))
 	return emit.Pair(input, o)
 }
+
+func minInt(a, b int) int {
+	if a < b {
+		return a
+	}
+	return b
+}
